@@ -99,6 +99,7 @@ Definition PEER : bytes := B "10.1.2.3".
 Definition peer_of (rest : list value) : bytes :=
   match rest with
   | [_; VB p] => p
+  | [_; VB p; VI _] => p          (* a ninth element: how many upstream operations happen before the rest of the body arrives *)
   | _ => PEER
   end.
 
